@@ -76,6 +76,12 @@ def meshes(tier, rng):
     inner = np.nonzero((pq[0] > 0) & (pq[0] < 1) & (pq[1] > 0) & (pq[1] < 1.2))[0]
     pq[:, inner] += rng.uniform(-.08, .08, (2, len(inner)))
     out.append(("quad-convex", fem.MeshQuad(pq, mq.t), False))
+    # mostly exact squares / cubes with ONE interior vertex moved: affine and non-affine cells side by side, both kinds owning boundary facets
+    m4 = fem.MeshQuad.init_tensor(np.linspace(0, 1, 4), np.linspace(0, 1, 4))
+    p4 = m4.p.copy()
+    j4 = int(np.argmin(np.abs(p4[0] - 1 / 3) + np.abs(p4[1] - 1 / 3)))
+    p4[:, j4] += [.09, -.07]
+    out.append(("quad-one-vertex-moved", fem.MeshQuad(p4, m4.t), False))
     P3 = np.vstack([np.array(list(itertools.product([0., 1.], repeat=3))), rng.uniform(.2, .8, (3, 3))])
     out.append(("tet-delaunay", fem.MeshTet(P3.T.copy(), Delaunay(P3).simplices.T.astype(np.int64)), True))
     A3 = np.array([[1., .4, .2], [.1, .9, -.3], [-.2, .3, 1.2]])
@@ -89,6 +95,11 @@ def meshes(tier, rng):
     ph[0] = ph[0] * (1 + ph[2] / 3)
     ph[1] = ph[1] * (1 + ph[2] / 5)
     out.append(("hex-frusta", fem.MeshHex(ph, mh.t), False))
+    m3 = fem.MeshHex.init_tensor(np.linspace(0, 1, 4), np.linspace(0, 1, 3), np.linspace(0, 1, 3))
+    p3 = m3.p.copy()
+    j3 = int(np.argmin(np.abs(p3[0] - 1 / 3) + np.abs(p3[1] - .5) + np.abs(p3[2] - .5)))
+    p3[:, j3] += [.08, -.06, .05]
+    out.append(("hex-one-vertex-moved", fem.MeshHex(p3, m3.t), False))
     mw = fem.MeshTri.init_sqsymmetric() * fem.MeshLine(np.array([0., .4, 1.]))
     out.append(("wedge-sheared", type(mw)(A3 @ mw.p, mw.t), True))
     return out
@@ -167,7 +178,9 @@ def patch_scalar(label, m, elabel, e, deg, rng, reaction, fails):
     else:
         dfac, nfac = split_boundary(m, rng)
         if len(nfac):
-            fbn = fem.FacetBasis(m, e, facets=nfac)
+            # the Neumann part is handed over as a LIST of two overlapping facet sets: it denotes their union
+            nsel = [nfac[: max(1, 2 * len(nfac) // 3)], nfac[len(nfac) // 3:]] if len(nfac) >= 3 else nfac
+            fbn = fem.FacetBasis(m, e, facets=nsel)
             b = b + fem.LinearForm(lambda v, w: sum(du[i](w.x) * w.n[i] for i in range(d)) * v).assemble(fbn)
         fbd = fem.FacetBasis(m, e, facets=dfac)
         x = fbd.project(lambda xx: u(xx))
